@@ -12,7 +12,7 @@ from vcore.obl import Obl, DISCHARGED, REFUTED, UNDECIDED, ERROR
 
 GRAM = "pyab_experiment.language.grammar"
 FN = GRAM + ":ExperimentParser"
-PROPS_ALL = ("C02", "C05", "C06", "C07")
+PROPS_ALL = ("C02", "C05", "C06", "C07", "C08", "C11", "C12", "C13", "C15", "C03", "C10")      # "the grammar is the documented one": everything that quantifies over grammatical programs
 
 
 def norm(v):
